@@ -30,6 +30,10 @@ func DefaultGenesisState() GenesisState {
 // error for any failed validation criteria.
 func ValidateGenesis(data GenesisState) error {
 	for _, account := range data.Accounts {
+		// an account that only ever received coins has no public key yet
+		if account.GetPubKey() == nil {
+			continue
+		}
 		if account.GetPubKey().PubKey() == nil {
 			return fmt.Errorf("PubKey should never be nil")
 		}
